@@ -398,7 +398,11 @@ pub fn run_c07(ctx: &Ctx) -> i32 {
     // odd characters in component names (foreign separator, leading dots, blanks)
     let odd = Universe::new("U_odd", &["/a", "/a\\b", "/..a", "/a b", "/a/a\\b", "/a/.. "]);
     spaces.push(alt_pair(Cfg::Mem, "/Z", Order::Asc, alphabet(odd.clone(), &[b"x"], 1, false)));
+    // an altroot directory whose own name is a prefix of the names below it (and of a sibling)
+    spaces.push(alt_pair(Cfg::Mem, "/a", Order::Asc, alphabet(u_names(), &[b"x"], 1, false)));
+    spaces.push(alt_pair(Cfg::Phys, "/a/a", Order::Desc, alphabet(u_names_small(), &[b"x"], 1, false)));
     if thorough {
+        spaces.push(alt_pair(Cfg::Mem, "/a", Order::Asc, alphabet(u_names(), &[b"x"], 1, true)));
         spaces.push(alt_pair(Cfg::Phys, "/Z/Y", Order::Asc, alphabet(odd.clone(), &[b"x"], 1, true)));
         spaces.push(alt_pair(Cfg::Mem, "", Order::Asc, a22.clone()));
         spaces.push(alt_pair(Cfg::Mem, "/Z/Y/X", Order::Asc, alphabet(u22(), &[b"", b"x"], 3, true)));
